@@ -97,4 +97,9 @@ CHECKS["C33"] = dict(level="exploration", technique="whole-table trace judged by
          "UTF-8 bytes, names unique / prefix-free / ASCII, encodings independent); TLC-generated strings mixing ASCII and table entries are "
          "run through getMangledString and the real tfel-unicode-filt binary and compared with the per-item substitution and its inverse.",
     note="Strings are short (<= 4 items); inputs never contain the mangling prefix (precondition of the statement).", ref="8/C33")
+CHECKS["C34"] = dict(level="exploration", technique="whole-glossary trace judged by TLC against the well-formedness invariants of Glossary.tla",
+    text="Every entry (key, alternative names, answers of contains / getGlossaryEntry for each of them, physical bounds of each unit "
+         "system), every static member and a set of perturbed non-entry strings are dumped from the real library; TLC evaluates "
+         "uniqueness of keys, unambiguous resolution of every name, key round trip, member = registered entry, numeric and ordered bounds.",
+    note="Exhaustive over the glossary data of the current tree.", ref="8/C34")
 NOT_APPLICABLE = {}
